@@ -198,3 +198,19 @@ Proof.
   - apply Forall_map. eapply Forall_impl; [|exact Hok]. unfold byteZ. intros b Hb. cbv beta. lia.
   - rewrite map_length. exact Hlen.
 Qed.
+
+(* the encoder emits at most two bytes per byte of the frame, and two more *)
+Lemma fold_stepZ_len : forall p r c, (c < List.length r)%nat ->
+  (List.length (fst (fold_left stepZ p (r, c))) <= List.length r + 2 * List.length p)%nat.
+Proof.
+  induction p as [|v p IH]; intros r c Hc; [cbn; lia|]. cbn [fold_left List.length].
+  destruct (stepZ_inv r c v Hc) as [Hc' Hl']. destruct (stepZ (r, c) v) as [r' c'].
+  cbn [fst snd] in *. specialize (IH r' c' Hc'). lia.
+Qed.
+
+Lemma encode_len_bound f : Forall (fun b => b < 256)%N f -> (List.length (encode f) <= 2 * List.length f + 2)%nat.
+Proof.
+  intros Hok. rewrite <- (loopN_is_encode f Hok). rewrite <- (map_length Z.of_N (loopN f)), <- loopZ_of_N.
+  unfold loopZ. rewrite app_length. cbn [List.length].
+  pose proof (fold_stepZ_len (map Z.of_N f) [1] 0%nat ltac:(cbn; lia)) as H. rewrite map_length in H. cbn [List.length] in H. lia.
+Qed.
